@@ -159,19 +159,22 @@ class HDict(dict):
 
 
 class Frame:
-    __slots__ = ('fn', 'vars', 'entry', 'Wentry', 'eaten', 'rule', 'caller_cur')
+    __slots__ = ('fn', 'vars', 'entry', 'Wentry', 'eaten', 'rule', 'caller_cur', 'seq')
 
     def __init__(self, fn, vars, entry, Wentry, eaten=(), rule=None, caller_cur=0):
         # cursor offsets are relative to the entry of the innermost frame: entry is always 0;
         # caller_cur is the caller's offset at the call, restored (plus the movement) on return
         self.fn, self.vars, self.entry, self.Wentry, self.eaten, self.rule = fn, vars, entry, Wentry, eaten, rule
         self.caller_cur = caller_cur
+        self.seq = ()       # category sets of the first two characters consumed by this invocation
 
     def copy(self):
-        return Frame(self.fn, dict(self.vars), self.entry, self.Wentry, self.eaten, self.rule, self.caller_cur)
+        f = Frame(self.fn, dict(self.vars), self.entry, self.Wentry, self.eaten, self.rule, self.caller_cur)
+        f.seq = self.seq
+        return f
 
     def key(self):
-        return (self.fn.qual, frozenset(self.vars.items()), self.caller_cur, self.Wentry, self.eaten)
+        return (self.fn.qual, frozenset(self.vars.items()), self.caller_cur, self.Wentry, self.eaten, self.seq)
 
 
 class St:
@@ -286,6 +289,8 @@ class TokInterp(Interp):
         s.cur = sat_add(st.cur, n)
         for fr in s.frames:
             fr.eaten = eaten_add(fr.eaten, eaten_syms)
+            if len(fr.seq) < 2:
+                fr.seq = (fr.seq + tuple(frozenset(x) for x in eaten_syms))[:2]
             for k, v in list(fr.vars.items()):
                 v2 = self.freeze_val(v, W)
                 if v2[0] == 'tok':
@@ -765,6 +770,7 @@ class TokInterp(Interp):
         for f2 in s.frames:
             if f2 is s.frames[-1]:
                 f2.eaten = eaten_add((), eaten_syms)
+                f2.seq = tuple(frozenset(x) for x in eaten_syms)[:2]
             for k, v in list(f2.vars.items()):
                 if v[0] == 'tok':
                     # tokens built so far now lie (partly) after the cursor
@@ -890,12 +896,12 @@ class TokInterp(Interp):
         moved = self.moved(fr.entry, st.cur)
         if rv[0] == 'tok':
             t = rv[1]
-            rec = ('emit', fr.rule, t._replace(origin=fr.rule), moved, fr.eaten or (frozenset(), 0), st.W[1])
+            rec = ('emit', fr.rule, t._replace(origin=fr.rule), moved, fr.eaten or (frozenset(), 0), st.W[1], fr.seq)
             st.log = st.log + (rec,)
             return ('tok', t._replace(origin=fr.rule)), st
         if rv[0] == 'const' and rv[1] is None:
             if moved != 0:
-                st.log = st.log + (('silent', fr.rule, None, moved, fr.eaten or (frozenset(), 0), st.W[1]),)
+                st.log = st.log + (('silent', fr.rule, None, moved, fr.eaten or (frozenset(), 0), st.W[1], fr.seq),)
             return rv, st
         if rv[0] in ('item', 'staleitem'):
             self.unsupported('rule %s returns a bare character item' % fr.rule)
